@@ -1,6 +1,7 @@
 package props
 
 import (
+	"fmt"
 	"strconv"
 	"strings"
 	"testing"
@@ -338,3 +339,97 @@ var fuzzSeedStrings = []string{
 }
 
 func itoa(n int) string { return strconv.Itoa(n) }
+
+// ---------------------------------------------------------------------------------------
+// Sizes. Long inputs and long runs of one class around the powers of two up to 128 K (buffers, chunks and blocks live
+// there): a multi-byte character straddling the byte offset B at every split, and single lexemes - a word, a blank
+// run, a number, a quoted string, a comment - of B-1, B, B+1 characters. The case is described, not spelled out
+// (the replay file and the evidence stay small); the oracle is the lossless check itself.
+
+type c04BigCase struct {
+	Tok   string `json:"tok"`
+	Shape string `json:"shape"` // straddle | word | blank | digits | quoted | comment | nonlatin
+	N     int    `json:"n"`     // straddle: the byte offset the character lies across; otherwise the length of the run
+	Split int    `json:"split"` // straddle: how many bytes of the character lie in front of the offset
+	Char  string `json:"char"`  // straddle: the character
+}
+
+func (c c04BigCase) input() string {
+	switch c.Shape {
+	case "straddle":
+		fill := c.N - c.Split
+		var sb strings.Builder
+		for sb.Len()+4 <= fill {
+			sb.WriteString("ab, ")
+		}
+		for sb.Len() < fill {
+			sb.WriteByte('x')
+		}
+		sb.WriteString(c.Char)
+		sb.WriteString(" tail é,1")
+		return sb.String()
+	case "word":
+		return "a " + strings.Repeat("w", c.N) + " b"
+	case "nonlatin":
+		return "a," + strings.Repeat("é", c.N) + ",中"
+	case "blank":
+		return "a" + strings.Repeat(" ", c.N) + "b"
+	case "digits":
+		return "x " + strings.Repeat("7", c.N) + " y"
+	case "quoted":
+		return "x '" + strings.Repeat("q", c.N) + "' y"
+	case "comment":
+		return "x /*" + strings.Repeat("c", c.N) + "*/ # " + strings.Repeat("d", c.N) + "\ny"
+	}
+	return ""
+}
+
+func checkC04Big(c c04BigCase) *evid.Fail {
+	f := checkC04(c04Case{c.Tok, c.input()})
+	if f != nil && len(f.Msg) > 600 {
+		f.Msg = f.Msg[:300] + " ... " + f.Msg[len(f.Msg)-300:]
+	}
+	if f != nil {
+		f.Msg = fmt.Sprintf("%s tokenizer, %s of size %d (split %d, %q): %s", c.Tok, c.Shape, c.N, c.Split, c.Char, f.Msg)
+	}
+	return f
+}
+
+func init() { regReplay("C04.big", checkC04Big) }
+
+func TestC04_EnumSizes(t *testing.T) {
+	rec := evid.New("C04", "TestC04_EnumSizes", "C04.big", c04Rule+"; sizes: a 2-, 3- and 4-byte character straddling the byte offsets 2^8 .. 2^17 at every split, and single lexemes (word, non-Latin word, blank run, digits, quoted string, comments) of 2^k-1, 2^k, 2^k+1 characters up to 2^16 / 2^17 (and 1500, 3000), x 4 tokenizers")
+	rec.Exhaustive = true
+	rec.DupFree = true
+	defer finish(t, rec)
+	var cases []c04BigCase
+	top := pick(16, 17)
+	for k := 8; k <= top; k++ {
+		for _, ch := range []string{"é", "中", "😀"} {
+			for split := 1; split < len(ch); split++ {
+				for _, tok := range tokKinds {
+					cases = append(cases, c04BigCase{tok, "straddle", 1 << uint(k), split, ch})
+				}
+			}
+		}
+	}
+	for _, shape := range []string{"word", "nonlatin", "blank", "digits", "quoted", "comment"} {
+		sizes := []int{1500, 3000}
+		for k := 8; k <= top; k++ {
+			sizes = append(sizes, 1<<uint(k)-1, 1<<uint(k), 1<<uint(k)+1)
+		}
+		for _, n := range sizes {
+			for _, tok := range tokKinds {
+				cases = append(cases, c04BigCase{Tok: tok, Shape: shape, N: n})
+			}
+		}
+	}
+	rec.Bounds = fmt.Sprintf("%d described inputs", len(cases))
+	parallelFor(len(cases), func(i int) {
+		c := cases[i]
+		rec.Case(jsonStr(c), true, func() interface{} { return c }, "shape:"+c.Shape)
+		if f := checkC04Big(c); f != nil {
+			rec.Fail(f, c)
+		}
+	})
+}
